@@ -423,6 +423,34 @@ func init() {
 				if sg.Real.Verify(obytes, signature.Decode(s)) {
 					direct = append(direct, map[string]any{"receipt": i, "shape": shape, "alteration": "sig-flip", "what": "altered signature verifies"})
 				}
+				// every other single alteration of the signature bytes: extended, truncated, size varint changed / padded,
+				// code varint padded
+				sv := signature.Decode(rm.Sig)
+				code, raw := sv.Code(), sv.Raw()
+				padded := func(v uint64) []byte { // a non-minimal varint of v (one redundant continuation octet)
+					b := uvarintBytes(v)
+					b[len(b)-1] |= 0x80
+					return append(b, 0x00)
+				}
+				for name, alt := range map[string][]byte{
+					"sig-extended":       append(append([]byte{}, rm.Sig...), 0x00),
+					"sig-extended-many":  append(append([]byte{}, rm.Sig...), []byte("RS256")...),
+					"sig-truncated":      rm.Sig[:len(rm.Sig)-1],
+					"sig-size-plus-one":  cat(uvarintBytes(code), uvarintBytes(uint64(len(raw))+1), raw),
+					"sig-size-minus-one": cat(uvarintBytes(code), uvarintBytes(uint64(len(raw))-1), raw),
+					"sig-size-padded":    cat(uvarintBytes(code), padded(uint64(len(raw))), raw),
+					"sig-code-padded":    cat(padded(code), uvarintBytes(uint64(len(raw))), raw),
+				} {
+					altHist[name]++
+					nverify++
+					if p := recovered(func() {
+						if sg.Real.Verify(obytes, signature.Decode(alt)) {
+							direct = append(direct, map[string]any{"receipt": i, "shape": shape, "alteration": name, "what": "signature still verifies after altering " + name})
+						}
+					}); p != nil {
+						direct = append(direct, map[string]any{"receipt": i, "shape": shape, "alteration": name, "what": fmt.Sprintf("verifying an altered signature panicked (%s): %v", name, p)})
+					}
+				}
 			}
 			// read back through the library's readers: NewReceipt (untyped), ReceiptReader.Read, Rebind to typed results
 			wantBlocks := map[string]bool{}
